@@ -37,49 +37,56 @@
    malformed stream and the PANIC observation of the harness are the net under
    it).  What Coq checks is the COVERAGE column of the listed sites, and only
    for the two constructors below.  Both take the function that contains the
-   site as a FUNCTIONAL of the panicking operation, so that an entry cannot
-   be inhabited by an unrelated function or by a guard nobody establishes
-   (fourth audit, C1: the earlier shapes `CModel op w f pf` / `CLemma raw w
-   guard pf` did not relate f to op and left guard free - `fun _ => Err` and
-   `guard := False` type-checked; see the Fail tests at the end of
-   proofs/UntrustedPanicSitesTable.v):
+   site as a functional of a GUARD SWITCH and of the panicking operation
+   (fifth audit, C1-1; the shapes of the fourth audit - F without the switch,
+   with `reach : exists a, F (fun _ => Panic) a = Panic` - were still inhabited
+   by `fun op _ => op c` for a harmless constant c: no guard, no input reaching
+   the operation):
 
-     CModel op w F reach f same pf
+     CModel op F necessary f same pf
         op : X -> outcome Y   the checked operation of the model standing for the
-                              Go expression (Bytes.slice, encode_point, ...)
-        w : exists x, op x = Panic        it CAN panic
-        F : (X -> outcome Y) -> A -> outcome B   the body of the model function
-                              with the operation abstracted
-        reach : exists a, F (fun _ => Panic) a = Panic   the operation is really
-                              REACHED: with an always-panicking operation in its
-                              place the function panics on some input
+                              Go expression (encode_point, Bytes.slice, ...)
+        F : bool -> (X -> outcome Y) -> A -> outcome B   the body of the model
+                              function with the operation abstracted; the boolean
+                              switches the test(s) in front of the expression:
+                              F true = with them, F false = the same statements
+                              with those tests deleted
+        necessary : exists a, F false op a = Panic   WITHOUT the tests the REAL
+                              operation panics on some input of the function: the
+                              guard is needed and that input reaches the operation
         f : A -> outcome B    a function of model/Untrusted*.v, by name
-        same : forall a, F op a = f a     ... which IS that body over op
-        pf : forall a, f a <> Panic       and never panics: whatever guard stands
-                              in front of the operation inside F suffices
-     CLemma raw w F reach pf
+        same : forall a, F true op a = f a     ... which IS the guarded body
+        pf : forall a, f a <> Panic            and never panics
+     CLemma raw F necessary pf
         raw : X -> outcome Y  the raw Go operation with machine integers
                               (make_z, index_z, slice_z of model/UntrustedSites.v)
-        w : exists x, raw x = Panic
-        F : (X -> outcome Y) -> A -> outcome B   the statements AS WRITTEN in the
-                              Go function, the test in front of the expression
-                              included, over the raw operation
-        reach, pf : as above, for F raw
+        F : bool -> (X -> outcome Y) -> A -> outcome B   the statements AS WRITTEN
+                              in the Go function over the raw operation, with the
+                              same switch
+        necessary : exists a, F false raw a = Panic
+        pf : forall a, F true raw a <> Panic
 
-   Neither can be inhabited without a function that calls the operation on
-   some input and never lets it panic.  What the type does NOT say: that op /
-   raw / F are the right transcriptions of the Go source (read off the source),
-   and - for CModel - nothing beyond f being a function of the model (it is
-   tied to the code by the correspondence run).  The other three constructors
-   carry NO theorem:
+   What a constructor guarantees: there is a function with a switchable test
+   such that the operation panics on some input when the test is off and on
+   none when it is on.  A function that applies the operation to a harmless
+   constant does not fit (necessary fails), nor does one that never lets an
+   input through to the operation.  What remains READING, not type: that
+   F true transcribes the Go function and that the switched test is the one
+   the Go code has (a made-up pair "test / operation" with these two properties
+   is still an inhabitant - it is then a true statement about a made-up
+   function); for CModel, `same` ties F true to a function of the model, which
+   the correspondence run ties to the code.  The other three constructors carry
+   NO theorem:
 
      CArgued w       argued in prose (w).  Used for: constant bounds, static
                      types, values tink-go built itself, range loops; sites whose
                      model function has no Panic constructor to reach (nil-safe
                      getters = total getters of the model, length tests in front
-                     of library calls); sites whose only checked operation sits
-                     inside a callee that has its own entry (the parsers calling
-                     fixed_size); guards established by another function; integer
+                     of library calls); sites where no test is needed because the
+                     arithmetic cannot leave the range (a loop index below its
+                     bound, make with a constant-derived size); sites whose only
+                     checked operation sits inside a callee that has its own
+                     entry; guards established by another function; integer
                      conversions, which wrap rather than panic (the comparisons
                      after them are theorem C14_wrapping_conversions_are_rejected,
                      named in w, not checked by the table)
@@ -94,15 +101,15 @@ Inductive site_kind :=
 | KSlice | KIndex | KNilDeref | KIntConv | KMake | KBigInt | KTypeAssert | KStdlib | KExplicitPanic.
 
 Inductive coverage : Type :=
-| CModel {X Y A B : Type} (op : X -> outcome Y) (w : exists x, op x = Panic)
-         (F : (X -> outcome Y) -> A -> outcome B)
-         (reach : exists a, F (fun _ => Panic) a = Panic)
-         (f : A -> outcome B) (same : forall a, F op a = f a)
+| CModel {X Y A B : Type} (op : X -> outcome Y)
+         (F : bool -> (X -> outcome Y) -> A -> outcome B)
+         (necessary : exists a, F false op a = Panic)
+         (f : A -> outcome B) (same : forall a, F true op a = f a)
          (pf : forall a, f a <> Panic)
-| CLemma {X Y A B : Type} (raw : X -> outcome Y) (w : exists x, raw x = Panic)
-         (F : (X -> outcome Y) -> A -> outcome B)
-         (reach : exists a, F (fun _ => Panic) a = Panic)
-         (pf : forall a, F raw a <> Panic)
+| CLemma {X Y A B : Type} (raw : X -> outcome Y)
+         (F : bool -> (X -> outcome Y) -> A -> outcome B)
+         (necessary : exists a, F false raw a = Panic)
+         (pf : forall a, F true raw a <> Panic)
 | CArgued (why : string)
 | CStdlib (trusted : string)
 | CHarnessOnly (exercised_by : string).
@@ -112,8 +119,8 @@ Record site := mkSite {
   s_guard : string;      (* documentation: the check in front of the expression, verbatim *)
   s_cov : coverage }.
 
-Definition by_model_theorem (s : site) : bool := match s_cov s with CModel _ _ _ _ _ _ _ => true | _ => false end.
-Definition by_site_lemma (s : site) : bool := match s_cov s with CLemma _ _ _ _ _ => true | _ => false end.
+Definition by_model_theorem (s : site) : bool := match s_cov s with CModel _ _ _ _ _ _ => true | _ => false end.
+Definition by_site_lemma (s : site) : bool := match s_cov s with CLemma _ _ _ _ => true | _ => false end.
 Definition argued_only (s : site) : bool := match s_cov s with CArgued _ => true | _ => false end.
 Definition is_stdlib (s : site) : bool := match s_cov s with CStdlib _ => true | _ => false end.
 Definition is_harness_only (s : site) : bool := match s_cov s with CHarnessOnly _ => true | _ => false end.
